@@ -11,9 +11,9 @@ Section Match.
   Definition en1 (vs : list A) : env A := {| vars := vs; pars := [] |}.
   Definition enr (vs : list A) (xp yp dv : list A) : env A := {| vars := vs; pars := [xp; yp; dv] |}.
 
-  Lemma ev_tanh_log_grad x : eval O (en1 [x]) (tanh_log_grad_t (Var 0)) = tanh_log_grad O x.
+  Lemma ev_tanh_log_grad x : eval O (en1 [x]) (tanh_log_grad_t 1 (Var 0)) = tanh_log_grad O x.
   Proof. reflexivity. Qed.
-  Lemma ev_tanh_ld_inv y : eval O (en1 [y]) (tanh_ld_inv_t (Var 0)) = tanh_ld_inv O y.
+  Lemma ev_tanh_ld_inv y : eval O (en1 [y]) (tanh_ld_inv_t 1 (Var 0)) = tanh_ld_inv O y.
   Proof. reflexivity. Qed.
   Lemma ev_tanh_fwd x : eval O (en1 [x]) (tanh_fwd_t (Var 0)) = tanh_fwd O x.
   Proof. reflexivity. Qed.
@@ -24,13 +24,13 @@ Section Match.
     eval O (en1 [x; m; g; ic]) (leaky_fwd_t (Var 1) (Var 2) (Var 3) (Var 0)) = leaky_fwd O m g ic x.
   Proof. reflexivity. Qed.
   Lemma ev_leaky_ld_fwd m g ic x :
-    eval O (en1 [x; m; g; ic]) (leaky_ld_fwd_t (Var 1) (Var 2) (Var 0)) = leaky_ld_fwd O m g x.
+    eval O (en1 [x; m; g; ic]) (leaky_ld_fwd_t 4 (Var 1) (Var 2) (Var 0)) = leaky_ld_fwd O m g x.
   Proof. reflexivity. Qed.
   Lemma ev_leaky_inv m g ic y :
     eval O (en1 [y; m; g; ic]) (leaky_inv_t (Var 1) (Var 2) (Var 3) (Var 0)) = leaky_inv O m g ic y.
   Proof. reflexivity. Qed.
   Lemma ev_leaky_ld_inv m g ic y :
-    eval O (en1 [y; m; g; ic]) (leaky_ld_inv_t (Var 1) (Var 2) (Var 3) (Var 0)) = leaky_ld_inv O m g ic y.
+    eval O (en1 [y; m; g; ic]) (leaky_ld_inv_t 4 (Var 1) (Var 2) (Var 3) (Var 0)) = leaky_ld_inv O m g ic y.
   Proof. reflexivity. Qed.
   (* the old inverse has the same VALUE as the repaired one whenever the selected branch is the same:
      it is the gradient that differs (SafeP.leaky_inv_old_unsafe_refuted) *)
@@ -61,7 +61,7 @@ Section Match.
   Lemma ev_rqs_ld_inv xp yp dv lo hi y :
     eval O (enr [y; lo; hi] xp yp dv) (rqs_ld_inv_t 3 (Var 1) (Var 2) (Var 0)) = rqs_ld_inv O xp yp dv lo hi y.
   Proof.
-    unfold rqs_ld_inv_t, rqs_ld_inv_gt, rqs_ld_inv. cbn [eval].
+    unfold rqs_ld_inv_t, rqs_ld_inv_gt, rqs_ld_inv_of_gt, rqs_ld_inv. cbn [eval].
     change (rqs_inv_gt bin_t) with rqs_inv_t. change (rqs_deriv_gt bin_t) with rqs_deriv_t.
     rewrite ev_rqs_inv, push_enr. cbn [app]. now rewrite ev_rqs_deriv_slot.
   Qed.
@@ -78,13 +78,13 @@ Section Match.
   Proof. reflexivity. Qed.
   Lemma ev_softplus_inv y : eval O (en1 [y]) (softplus_inv_t (Var 0)) = softplus_inv O y.
   Proof. reflexivity. Qed.
-  Lemma ev_softplus_ld_inv y : eval O (en1 [y]) (softplus_ld_inv_t (Var 0)) = softplus_ld_inv O y.
+  Lemma ev_softplus_ld_inv y : eval O (en1 [y]) (softplus_ld_inv_t 1 (Var 0)) = softplus_ld_inv O y.
   Proof. reflexivity. Qed.
   Lemma ev_exp_fwd x : eval O (en1 [x]) (exp_fwd_t (Var 0)) = exp_fwd O x.
   Proof. reflexivity. Qed.
   Lemma ev_exp_inv y : eval O (en1 [y]) (exp_inv_t (Var 0)) = exp_inv O y.
   Proof. reflexivity. Qed.
-  Lemma ev_exp_ld_inv y : eval O (en1 [y]) (exp_ld_inv_t (Var 0)) = exp_ld_inv O y.
+  Lemma ev_exp_ld_inv y : eval O (en1 [y]) (exp_ld_inv_t 1 (Var 0)) = exp_ld_inv O y.
   Proof. reflexivity. Qed.
   Lemma ev_affine_fwd loc scale x :
     eval O (en1 [x; loc; scale]) (affine_fwd_t (Var 1) (Var 2) (Var 0)) = affine_fwd O loc scale x.
@@ -97,11 +97,11 @@ Section Match.
 
   (* all of them at once *)
   Theorem eval_matches_leaves :
-    (forall x, eval O (en1 [x]) (tanh_log_grad_t (Var 0)) = tanh_log_grad O x) /\
+    (forall x, eval O (en1 [x]) (tanh_log_grad_t 1 (Var 0)) = tanh_log_grad O x) /\
     (forall m g ic x, eval O (en1 [x; m; g; ic]) (leaky_fwd_t (Var 1) (Var 2) (Var 3) (Var 0)) = leaky_fwd O m g ic x) /\
-    (forall m g ic x, eval O (en1 [x; m; g; ic]) (leaky_ld_fwd_t (Var 1) (Var 2) (Var 0)) = leaky_ld_fwd O m g x) /\
+    (forall m g ic x, eval O (en1 [x; m; g; ic]) (leaky_ld_fwd_t 4 (Var 1) (Var 2) (Var 0)) = leaky_ld_fwd O m g x) /\
     (forall m g ic y, eval O (en1 [y; m; g; ic]) (leaky_inv_t (Var 1) (Var 2) (Var 3) (Var 0)) = leaky_inv O m g ic y) /\
-    (forall m g ic y, eval O (en1 [y; m; g; ic]) (leaky_ld_inv_t (Var 1) (Var 2) (Var 3) (Var 0)) = leaky_ld_inv O m g ic y) /\
+    (forall m g ic y, eval O (en1 [y; m; g; ic]) (leaky_ld_inv_t 4 (Var 1) (Var 2) (Var 3) (Var 0)) = leaky_ld_inv O m g ic y) /\
     (forall xp yp dv lo hi x, eval O (enr [x; lo; hi] xp yp dv) (rqs_fwd_t 3 (Var 1) (Var 2) (Var 0)) = rqs_fwd O xp yp dv lo hi x) /\
     (forall xp yp dv lo hi y, eval O (enr [y; lo; hi] xp yp dv) (rqs_inv_t 3 (Var 1) (Var 2) (Var 0)) = rqs_inv O xp yp dv lo hi y) /\
     (forall xp yp dv lo hi x, eval O (enr [x; lo; hi] xp yp dv) (rqs_deriv_t 3 (Var 1) (Var 2) (Var 0)) = rqs_deriv O xp yp dv lo hi x) /\
@@ -112,16 +112,16 @@ Section Match.
     (forall x, eval O (en1 [x]) (softplus_fwd_t (Var 0)) = softplus_fwd O x) /\
     (forall x, eval O (en1 [x]) (softplus_ld_fwd_t (Var 0)) = softplus_ld_fwd O x) /\
     (forall y, eval O (en1 [y]) (softplus_inv_t (Var 0)) = softplus_inv O y) /\
-    (forall y, eval O (en1 [y]) (softplus_ld_inv_t (Var 0)) = softplus_ld_inv O y) /\
+    (forall y, eval O (en1 [y]) (softplus_ld_inv_t 1 (Var 0)) = softplus_ld_inv O y) /\
     (forall x, eval O (en1 [x]) (exp_fwd_t (Var 0)) = exp_fwd O x) /\
     (forall y, eval O (en1 [y]) (exp_inv_t (Var 0)) = exp_inv O y) /\
-    (forall y, eval O (en1 [y]) (exp_ld_inv_t (Var 0)) = exp_ld_inv O y) /\
+    (forall y, eval O (en1 [y]) (exp_ld_inv_t 1 (Var 0)) = exp_ld_inv O y) /\
     (forall loc scale x, eval O (en1 [x; loc; scale]) (affine_fwd_t (Var 1) (Var 2) (Var 0)) = affine_fwd O loc scale x) /\
     (forall loc scale y, eval O (en1 [y; loc; scale]) (affine_inv_t (Var 1) (Var 2) (Var 0)) = affine_inv O loc scale y) /\
     (forall (loc scale x : A), eval O (en1 [x; loc; scale]) (affine_ld_t (Var 2)) = affine_ld O scale) /\
     (forall x, eval O (en1 [x]) (tanh_fwd_t (Var 0)) = tanh_fwd O x) /\
     (forall y, eval O (en1 [y]) (tanh_inv_t (Var 0)) = tanh_inv O y) /\
-    (forall y, eval O (en1 [y]) (tanh_ld_inv_t (Var 0)) = tanh_ld_inv O y).
+    (forall y, eval O (en1 [y]) (tanh_ld_inv_t 1 (Var 0)) = tanh_ld_inv O y).
   Proof.
     repeat apply conj;
       [ exact ev_tanh_log_grad | exact ev_leaky_fwd | exact ev_leaky_ld_fwd | exact ev_leaky_inv | exact ev_leaky_ld_inv
@@ -135,8 +135,8 @@ Section Match.
   Lemma ev_leaky_all m g ic y :
     eval O (en1 [y; m; g; ic]) (leaky_inv_t (Var 1) (Var 2) (Var 3) (Var 0)) = leaky_inv O m g ic y /\
     eval O (en1 [y; m; g; ic]) (leaky_fwd_t (Var 1) (Var 2) (Var 3) (Var 0)) = leaky_fwd O m g ic y /\
-    eval O (en1 [y; m; g; ic]) (leaky_ld_fwd_t (Var 1) (Var 2) (Var 0)) = leaky_ld_fwd O m g y /\
-    eval O (en1 [y; m; g; ic]) (leaky_ld_inv_t (Var 1) (Var 2) (Var 3) (Var 0)) = leaky_ld_inv O m g ic y.
+    eval O (en1 [y; m; g; ic]) (leaky_ld_fwd_t 4 (Var 1) (Var 2) (Var 0)) = leaky_ld_fwd O m g y /\
+    eval O (en1 [y; m; g; ic]) (leaky_ld_inv_t 4 (Var 1) (Var 2) (Var 3) (Var 0)) = leaky_ld_inv O m g ic y.
   Proof. repeat split; reflexivity. Qed.
   Lemma ev_rqs_all xp yp dv lo hi x :
     eval O (enr [x; lo; hi] xp yp dv) (rqs_fwd_t 3 (Var 1) (Var 2) (Var 0)) = rqs_fwd O xp yp dv lo hi x /\
@@ -152,14 +152,14 @@ Section Match.
       | exact (ev_rqs_inv_old _ _ _ _ _ _)].
   Qed.
   Lemma ev_other_all loc scale x :
-    eval O (en1 [x]) (tanh_log_grad_t (Var 0)) = tanh_log_grad O x /\
+    eval O (en1 [x]) (tanh_log_grad_t 1 (Var 0)) = tanh_log_grad O x /\
     eval O (en1 [x]) (softplus_inv_t (Var 0)) = softplus_inv O x /\
-    eval O (en1 [x]) (softplus_ld_inv_t (Var 0)) = softplus_ld_inv O x /\
+    eval O (en1 [x]) (softplus_ld_inv_t 1 (Var 0)) = softplus_ld_inv O x /\
     eval O (en1 [x]) (softplus_ld_fwd_t (Var 0)) = softplus_ld_fwd O x /\
     eval O (en1 [x]) (exp_inv_t (Var 0)) = exp_inv O x /\
-    eval O (en1 [x]) (exp_ld_inv_t (Var 0)) = exp_ld_inv O x /\
+    eval O (en1 [x]) (exp_ld_inv_t 1 (Var 0)) = exp_ld_inv O x /\
     eval O (en1 [x]) (tanh_inv_t (Var 0)) = tanh_inv O x /\
-    eval O (en1 [x]) (tanh_ld_inv_t (Var 0)) = tanh_ld_inv O x /\
+    eval O (en1 [x]) (tanh_ld_inv_t 1 (Var 0)) = tanh_ld_inv O x /\
     eval O (en1 [x; loc; scale]) (affine_fwd_t (Var 1) (Var 2) (Var 0)) = affine_fwd O loc scale x /\
     eval O (en1 [x; loc; scale]) (affine_inv_t (Var 1) (Var 2) (Var 0)) = affine_inv O loc scale x /\
     eval O (en1 [x; loc; scale]) (affine_ld_t (Var 2)) = affine_ld O scale.
